@@ -9,11 +9,11 @@
 (***************************************************************************)
 EXTENDS GroupChain, Json
 
-CONSTANT Depth
+CONSTANTS Depth, Forks
 VARIABLE hist
 gvars == <<vars, hist>>
 
-Rec(o, g, p) == [op |-> o, g |-> g, pre |-> p]
+Rec(o, g, p) == [op |-> o, g |-> g, pre |-> p, ids |-> <<>>]
 
 Apply(post) == /\ store' = post.store /\ hidx' = post.hidx
                /\ count' = post.count /\ last' = post.last
@@ -42,9 +42,18 @@ GenRestart ==
   /\ Restart
   /\ hist' = Append(hist, Rec("Restart", 0, 0))
 
+(* the sync processor switches to a group fork hanging below a group of the local chain *)
+GenFork(anc, ids) ==
+  /\ pc = "idle" /\ store[anc].present
+  /\ Apply(ForkPost(store, hidx, count, last, anc, ids))
+  /\ hist' = Append(hist, [op |-> "Fork", g |-> anc, pre |-> 0, ids |-> ids])
+
+ForkSeqs == {<<a>> : a \in Ids} \cup {s \in Ids \X Ids : s[1] # s[2]}
+
 GenNext ==
   /\ Len(hist) < Depth
   /\ \/ \E g \in Ids : GenAdd(g)
+     \/ \E anc \in AllIds, ids \in ForkSeqs : Forks /\ GenFork(anc, ids)
      \/ \E g \in Ids, p \in AllIds : GenAddRejected(g, p)
      \/ GenRemove
      \/ GenRestart
